@@ -128,9 +128,11 @@ def case_stream(rng: random.Random, tier: str):
                 r = mask % n
                 yield G.class_graph_case(n, mask, rng, r, G.ROOT_KINDS[(mask // n) % len(G.ROOT_KINDS)])
     nvar = 1500 if tier == "thorough" else 250
-    for variant in ("nested", "twomod", "wrappers"):
+    for variant in ("nested", "twomod", "wrappers", "wrappers", "wrappers"):
         for i in range(nvar):
             n = rng.choice([1, 2, 2, 3, 3, 3] + ([4] if tier == "thorough" else []))
+            if variant == "wrappers":
+                n = rng.choice([2, 3, 3, 4, 4, 4])
             mask = rng.randrange(1 << (n * n))
             yield G.class_graph_case(n, mask, rng, rng.randrange(n), rng.choice(G.ROOT_KINDS), variant)
     for i in range(3000 if tier == "thorough" else 400):
